@@ -1,4 +1,5 @@
 CONSTANTS
+  OpenFx = {}
   ElemNames <- C_ElemNames
   AttrNames <- C_AttrNames
   AttrValues <- C_AttrValues
